@@ -96,6 +96,28 @@ func analyzerCase(g *hx.Gen, keys []string, pick func(k string) (*nathole.NatFea
 					"what": fmt.Sprintf("GetRecommandBehaviors returned roles %q/%q (mode %d index %d)", cb.Role, vb.Role, mode, index),
 					"case": fmt.Sprintf("c=%+v v=%+v after %d operations: %s", *c, *v, i, strings.Join(ops, "; "))})
 			}
+			// role rules of modes 1, 2, 4 on the implementation's own output
+			hard := func(f *nathole.NatFeature) bool { return f.NatType == nathole.HardNAT }
+			var ruleOK = true
+			switch mode {
+			case 1:
+				if hard(c) || hard(v) {
+					ruleOK = (cb.Role == "sender" && hard(c)) || (vb.Role == "sender" && hard(v))
+				}
+			case 2:
+				if hard(c) || hard(v) {
+					ruleOK = (cb.Role == "receiver" && hard(c)) || (vb.Role == "receiver" && hard(v))
+				}
+			case 4:
+				if c.RegularPortsChange || v.RegularPortsChange {
+					ruleOK = (cb.Role == "sender" && c.RegularPortsChange) || (vb.Role == "sender" && v.RegularPortsChange)
+				}
+			}
+			if !ruleOK {
+				*fails = append(*fails, map[string]string{"key": fmt.Sprintf("role-rule-mode%d", mode),
+					"what": fmt.Sprintf("mode %d: roles %q (c) / %q (v) contradict the mode's rule", mode, cb.Role, vb.Role),
+					"case": fmt.Sprintf("c=%+v v=%+v after %d operations: %s", *c, *v, i, strings.Join(ops, "; "))})
+			}
 			if i > 0 {
 				nontrivial = true
 			}
